@@ -1,10 +1,11 @@
 (* SK.Real.Separation — C19 separation over R (item 8): two relative accuracies in
    [1e-6, 0.99] that differ by at least 0.1 % (relative to the larger) give gammas that
-   differ by at least 1e-10 relative to the larger, for the three constructor formulas.
-   (The Equals gate of the Go code is 1e-12 relative.)
-   Proof: ln gamma0(a2) - ln gamma0(a1) >= (3/2)(a2 - a1) for gamma0 a = (1+a)/(1-a);
-   ln gamma = c ln gamma0 with c in {1, ln 2, 10 ln 2 / 7}, all >= 1/2;
-   exp (-x) <= 1 - x/2 on [0,1]. *)
+   differ by MORE than 1e-9 relative to the larger, for the three constructor formulas
+   (hence also by at least 1e-10; the Equals gate of the Go code is 1e-12 relative).
+   Proof: with gamma0 a = (1+a)/(1-a) and d = a2 - a1 >= 0,
+     ln gamma0(a2) - ln gamma0(a1) >= d/(1-a1) + d/(1+a2) >= (299/199) d   (a2 <= 99/100);
+     ln gamma = c ln gamma0 with c in {1, ln 2, 10 ln 2 / 7}, all >= 2/3 ([ln2_ge_two_thirds]);
+     exp (-x) <= 1/(1+x);  d >= 1e-9;  (2/3)(299/199) = 598/597 > 1. *)
 From Coq Require Import Reals Lra Psatz ZArith Lia.
 From SK.Real Require Import RBasics MapGeneric Ctor.
 Open Scope R_scope.
@@ -25,17 +26,18 @@ Lemma ln_gamma0_ctor (a : R) : 0 < a < 1 -> ln (gamma0_ctor a) = ln (1 + a) - ln
 Proof. intros Ha. unfold gamma0_ctor. apply ln_div; lra. Qed.
 
 Lemma ln_gamma0_ctor_diff (a1 a2 : R) :
-  0 < a1 -> a1 <= a2 -> a2 < 1 ->
-  3 / 2 * (a2 - a1) <= ln (gamma0_ctor a2) - ln (gamma0_ctor a1).
+  0 < a1 -> a1 <= a2 -> a2 <= 99 / 100 ->
+  299 / 199 * (a2 - a1) <= ln (gamma0_ctor a2) - ln (gamma0_ctor a1).
 Proof.
   intros H1 H12 H2. rewrite !ln_gamma0_ctor by lra.
   pose proof (ln_diff_lower (1 + a1) (1 + a2)) as Hp.
   pose proof (ln_diff_lower (1 - a2) (1 - a1)) as Hm.
   assert (Hp' : (1 + a2 - (1 + a1)) / (1 + a2) <= ln (1 + a2) - ln (1 + a1)) by (apply Hp; lra).
   assert (Hm' : (1 - a1 - (1 - a2)) / (1 - a1) <= ln (1 - a1) - ln (1 - a2)) by (apply Hm; lra).
-  assert (B1 : (a2 - a1) / 2 <= (1 + a2 - (1 + a1)) / (1 + a2)).
-  { replace (1 + a2 - (1 + a1)) with (a2 - a1) by ring. unfold Rdiv.
-    apply Rmult_le_compat_l; [lra|]. apply Rinv_le_contravar; lra. }
+  assert (B1 : (a2 - a1) * (100 / 199) <= (1 + a2 - (1 + a1)) / (1 + a2)).
+  { replace (1 + a2 - (1 + a1)) with (a2 - a1) by ring. unfold Rdiv at 2.
+    apply Rmult_le_compat_l; [lra|].
+    replace (100 / 199) with (/ (199 / 100)) by field. apply Rinv_le_contravar; lra. }
   assert (B2 : (a2 - a1) <= (1 - a1 - (1 - a2)) / (1 - a1)).
   { replace (1 - a1 - (1 - a2)) with (a2 - a1) by ring. unfold Rdiv.
     rewrite <- (Rmult_1_r (a2 - a1)) at 1.
@@ -43,41 +45,39 @@ Proof.
   lra.
 Qed.
 
-Lemma exp_neg_le (x : R) : 0 <= x <= 1 -> exp (- x) <= 1 - x / 2.
+Lemma exp_neg_le_inv (x : R) : 0 <= x -> exp (- x) <= / (1 + x).
 Proof.
-  intros Hx. rewrite exp_Ropp.
-  pose proof (exp_ineq1_le x) as H1.
-  assert (H2 : / exp x <= / (1 + x)) by (apply Rinv_le_contravar; lra).
-  assert (H3 : / (1 + x) <= 1 - x / 2).
-  { apply (Rmult_le_reg_r (1 + x)); [lra|]. rewrite Rinv_l by lra. nra. }
-  lra.
+  intros Hx. rewrite exp_Ropp. pose proof (exp_ineq1_le x) as H1.
+  apply Rinv_le_contravar; lra.
 Qed.
 
-(** core: gamma_k = exp (c * ln gamma0(a_k)), c >= 1/2, a1 <= a2 with gap d >= x0 > 0 *)
+(** core: gamma_k = exp (c * ln gamma0(a_k)), c >= 2/3, a1 <= a2 *)
 Lemma sep_core (c a1 a2 : R) :
-  1 / 2 <= c ->
+  2 / 3 <= c ->
   1 / 10 ^ 6 <= a1 -> a1 <= a2 -> a2 <= 99 / 100 ->
   1 / 1000 * a2 <= a2 - a1 ->
   let g1 := exp (c * ln (gamma0_ctor a1)) in
   let g2 := exp (c * ln (gamma0_ctor a2)) in
-  g1 <= g2 /\ 1 / 10 ^ 10 * g2 <= g2 - g1.
+  g1 <= g2 /\ 1 / 10 ^ 9 * g2 < g2 - g1.
 Proof.
   intros Hc Hlo H12 Hhi Hgap g1 g2.
   assert (Ha1 : 0 < a1) by (assert (0 < 1 / 10 ^ 6) by lra; lra).
-  pose proof (ln_gamma0_ctor_diff a1 a2 Ha1 H12 ltac:(lra)) as Hd.
+  pose proof (ln_gamma0_ctor_diff a1 a2 Ha1 H12 Hhi) as Hd.
   set (l1 := ln (gamma0_ctor a1)) in *. set (l2 := ln (gamma0_ctor a2)) in *.
   assert (Hgap' : 1 / 10 ^ 9 <= a2 - a1) by lra.
-  set (x0 := 1 / 2 * (1 / 10 ^ 9)).
+  set (x0 := 598 / 597 * (1 / 10 ^ 9)).
   assert (Hx : x0 <= c * l2 - c * l1).
   { unfold x0. assert (0 <= l2 - l1) by lra.
-    assert (1 / 2 * (l2 - l1) <= c * (l2 - l1)) by (apply Rmult_le_compat_r; lra). lra. }
+    assert (2 / 3 * (l2 - l1) <= c * (l2 - l1)) by (apply Rmult_le_compat_r; lra). lra. }
   assert (Hg2 : 0 < g2) by apply exp_pos.
   assert (Hle : g1 <= g2 * exp (- x0)).
   { unfold g1, g2. rewrite <- exp_plus. apply exp_le_mono. lra. }
-  assert (Hx0 : 0 <= x0 <= 1) by (unfold x0; lra).
-  pose proof (exp_neg_le x0 Hx0) as He.
-  assert (Hle2 : g2 * exp (- x0) <= g2 * (1 - 1 / (4 * 10 ^ 9))).
-  { apply Rmult_le_compat_l; [lra|]. unfold x0 in He |- *. lra. }
+  assert (Hx0 : 0 <= x0) by (unfold x0; lra).
+  pose proof (exp_neg_le_inv x0 Hx0) as He.
+  assert (Hk : / (1 + x0) <= 1 - 1001 / 1000 * (1 / 10 ^ 9)).
+  { apply (Rmult_le_reg_r (1 + x0)); [lra|]. rewrite Rinv_l by lra. unfold x0. lra. }
+  assert (Hle2 : g2 * exp (- x0) <= g2 * (1 - 1001 / 1000 * (1 / 10 ^ 9))).
+  { apply Rmult_le_compat_l; lra. }
   split; lra.
 Qed.
 
@@ -88,12 +88,12 @@ Proof.
 Qed.
 
 Lemma sep_sym (c : R) (G : R -> R) :
-  1 / 2 <= c ->
+  2 / 3 <= c ->
   (forall a, 0 < a < 1 -> G a = exp (c * ln (gamma0_ctor a))) ->
   forall a1 a2 : R,
   1 / 10 ^ 6 <= a1 <= 99 / 100 -> 1 / 10 ^ 6 <= a2 <= 99 / 100 ->
   1 / 1000 * Rmax a1 a2 <= Rabs (a1 - a2) ->
-  1 / 10 ^ 10 * Rmax (G a1) (G a2) <= Rabs (G a1 - G a2).
+  1 / 10 ^ 9 * Rmax (G a1) (G a2) < Rabs (G a1 - G a2).
 Proof.
   intros Hc HG a1 a2 R1 R2 Hgap.
   assert (P1 : 0 < a1 < 1) by (assert (0 < 1 / 10 ^ 6) by lra; lra).
@@ -113,22 +113,62 @@ Qed.
 Theorem sep_log (a1 a2 : R) :
   1 / 10 ^ 6 <= a1 <= 99 / 100 -> 1 / 10 ^ 6 <= a2 <= 99 / 100 ->
   1 / 1000 * Rmax a1 a2 <= Rabs (a1 - a2) ->
-  1 / 10 ^ 10 * Rmax (gamma_log_ctor a1) (gamma_log_ctor a2)
-    <= Rabs (gamma_log_ctor a1 - gamma_log_ctor a2).
+  1 / 10 ^ 9 * Rmax (gamma_log_ctor a1) (gamma_log_ctor a2)
+    < Rabs (gamma_log_ctor a1 - gamma_log_ctor a2).
 Proof. apply (sep_sym 1); [lra | apply gamma_log_ctor_exp]. Qed.
 
 Theorem sep_lin (a1 a2 : R) :
   1 / 10 ^ 6 <= a1 <= 99 / 100 -> 1 / 10 ^ 6 <= a2 <= 99 / 100 ->
   1 / 1000 * Rmax a1 a2 <= Rabs (a1 - a2) ->
-  1 / 10 ^ 10 * Rmax (gamma_lin_ctor a1) (gamma_lin_ctor a2)
-    <= Rabs (gamma_lin_ctor a1 - gamma_lin_ctor a2).
-Proof. apply (sep_sym (ln 2)); [apply ln2_ge_half | intros a _; reflexivity]. Qed.
+  1 / 10 ^ 9 * Rmax (gamma_lin_ctor a1) (gamma_lin_ctor a2)
+    < Rabs (gamma_lin_ctor a1 - gamma_lin_ctor a2).
+Proof. apply (sep_sym (ln 2)); [apply ln2_ge_two_thirds | intros a _; reflexivity]. Qed.
 
 Theorem sep_cub (a1 a2 : R) :
+  1 / 10 ^ 6 <= a1 <= 99 / 100 -> 1 / 10 ^ 6 <= a2 <= 99 / 100 ->
+  1 / 1000 * Rmax a1 a2 <= Rabs (a1 - a2) ->
+  1 / 10 ^ 9 * Rmax (gamma_cub_ctor a1) (gamma_cub_ctor a2)
+    < Rabs (gamma_cub_ctor a1 - gamma_cub_ctor a2).
+Proof.
+  apply (sep_sym (10 * ln 2 / 7)); [pose proof ln2_ge_two_thirds; lra | intros a _; reflexivity].
+Qed.
+
+(** the weaker 1e-10 forms asked for by the task statement *)
+Lemma weaken_1e10 (M D : R) : 0 <= M -> 1 / 10 ^ 9 * M < D -> 1 / 10 ^ 10 * M <= D.
+Proof. intros HM H. lra. Qed.
+
+Lemma Rmax_pos_l (x y : R) : 0 < x -> 0 <= Rmax x y.
+Proof. intros Hx. pose proof (Rmax_l x y). lra. Qed.
+
+Theorem sep_log_1e10 (a1 a2 : R) :
+  1 / 10 ^ 6 <= a1 <= 99 / 100 -> 1 / 10 ^ 6 <= a2 <= 99 / 100 ->
+  1 / 1000 * Rmax a1 a2 <= Rabs (a1 - a2) ->
+  1 / 10 ^ 10 * Rmax (gamma_log_ctor a1) (gamma_log_ctor a2)
+    <= Rabs (gamma_log_ctor a1 - gamma_log_ctor a2).
+Proof.
+  intros R1 R2 H. apply weaken_1e10; [|apply sep_log; assumption].
+  apply Rmax_pos_l. assert (0 < 1 / 10 ^ 6) by lra.
+  pose proof (gamma_log_ctor_gt1 a1 ltac:(lra)). lra.
+Qed.
+
+Theorem sep_lin_1e10 (a1 a2 : R) :
+  1 / 10 ^ 6 <= a1 <= 99 / 100 -> 1 / 10 ^ 6 <= a2 <= 99 / 100 ->
+  1 / 1000 * Rmax a1 a2 <= Rabs (a1 - a2) ->
+  1 / 10 ^ 10 * Rmax (gamma_lin_ctor a1) (gamma_lin_ctor a2)
+    <= Rabs (gamma_lin_ctor a1 - gamma_lin_ctor a2).
+Proof.
+  intros R1 R2 H. apply weaken_1e10; [|apply sep_lin; assumption].
+  apply Rmax_pos_l. assert (0 < 1 / 10 ^ 6) by lra.
+  pose proof (gamma_lin_ctor_gt1 a1 ltac:(lra)). lra.
+Qed.
+
+Theorem sep_cub_1e10 (a1 a2 : R) :
   1 / 10 ^ 6 <= a1 <= 99 / 100 -> 1 / 10 ^ 6 <= a2 <= 99 / 100 ->
   1 / 1000 * Rmax a1 a2 <= Rabs (a1 - a2) ->
   1 / 10 ^ 10 * Rmax (gamma_cub_ctor a1) (gamma_cub_ctor a2)
     <= Rabs (gamma_cub_ctor a1 - gamma_cub_ctor a2).
 Proof.
-  apply (sep_sym (10 * ln 2 / 7)); [pose proof ln2_ge_half; lra | intros a _; reflexivity].
+  intros R1 R2 H. apply weaken_1e10; [|apply sep_cub; assumption].
+  apply Rmax_pos_l. assert (0 < 1 / 10 ^ 6) by lra.
+  pose proof (gamma_cub_ctor_gt1 a1 ltac:(lra)). lra.
 Qed.
